@@ -65,6 +65,12 @@ func applyOps(tree map[string]string, ops []string) {
 					}
 				}
 			}
+		case "wraw":
+			// a file whose NAME is not valid UTF-8 (the JSON form of the case cannot carry such a name: it is
+			// made here): plugins/evil\xff.so
+			if len(p) == 3 {
+				tree[p[1]+"/evil\xff.so"] = p[2]
+			}
 		case "lnout":
 			// the path becomes a symbolic link to a file elsewhere with this content
 			if len(p) == 3 {
@@ -128,12 +134,14 @@ func c09Gen(t *rapid.T) c09Case {
 	}
 	nEdits := rapid.SampledFrom([]int{0, 0, 0, 1, 1, 2}).Draw(t, "nedits")
 	for i := 0; i < nEdits; i++ {
-		switch rapid.IntRange(0, 9).Draw(t, "edit") {
+		switch rapid.IntRange(0, 10).Draw(t, "edit") {
 		case 8:
 			// a final product replaced by a symbolic link to other content outside the directory
 			c.DirEdits = append(c.DirEdits, "lnout:"+pick("linkedfile")+":something else entirely\n")
 		case 9:
 			c.DirEdits = append(c.DirEdits, "lnout:added-link.bin:evil")
+		case 10:
+			c.DirEdits = append(c.DirEdits, "wraw:"+rapid.SampledFrom([]string{"plugins", "sub", "sub/dir"}).Draw(t, "rawdir")+":evil")
 		case 7:
 			// an added regular file that carries a special mode bit
 			c.DirEdits = append(c.DirEdits, "w:"+rapid.SampledFrom([]string{"setuid", "setgid", "sticky"}).Draw(t, "modebit")+"-tool:evil")
